@@ -151,6 +151,10 @@ def realmFn (d : Db) (s : Slot) (f : Fn) (k : Nat) (v : Int) (dep : Bool) : Exce
   | _, .sum => .ok d
   | _, _ => .error .vmPanic   -- not in the grammar (a function the realm does not have)
 
+def Slot.isHub : Slot → Bool
+  | .h => true
+  | _ => false
+
 def addNode (ns : List Slot) (s : Slot) : List Slot := if ns.contains s then ns else s :: ns
 
 /-- One message on the transaction state (handler of the vm / bank route). -/
@@ -158,14 +162,14 @@ def applyMsg (who : Nat) (t : TxSt) : Msg → Except Err TxSt
   | .send foreign => if foreign then .error .insufficientCoins else .ok t
   | .add s =>
     if t.db.dep s then .error .pkgExist
-    else if s == .h && !(t.db.da && t.db.db) then .error .typeCheck
-    else if s == .h && !(t.nodes.contains .a && t.nodes.contains .b) then .error .incoherent
+    else if s.isHub && !(t.db.da && t.db.db) then .error .typeCheck
+    else if s.isHub && !(t.nodes.contains .a && t.nodes.contains .b) then .error .incoherent
     else .ok { t with db := t.db.setDep s, nodes := addNode t.nodes s }
   | .call s f k v dep =>
     if !t.nodes.contains s then .error .internal
     else if !t.db.dep s then .error .incoherent
-    else if s == .h && !(t.db.da && t.db.db) then .error .incoherent
-    else if s == .h && !(t.nodes.contains .a && t.nodes.contains .b) then .error .incoherent
+    else if s.isHub && !(t.db.da && t.db.db) then .error .incoherent
+    else if s.isHub && !(t.nodes.contains .a && t.nodes.contains .b) then .error .incoherent
     else match realmFn t.db s f k v dep with
       | .ok d => .ok { t with db := d }
       | .error e => .error e
@@ -231,33 +235,62 @@ structure World where
   opened : Bool := false
   deriving DecidableEq, Repr
 
+/-- What one op line answers. -/
+inductive Out
+  | ok
+  | err (e : Err)
+  | dump (height : Nat) (d : Db)
+  | badop
+  deriving DecidableEq, Repr
+
 def showKV (m : KV) : String :=
   if m.isEmpty then "e" else ",".intercalate (m.map fun (k, v) => s!"{k}:{v}")
 
-def dump (d : Db) : String :=
+def showDb (d : Db) : String :=
   let f (dep : Bool) (s : String) := if dep then s else "-"
   s!"a={f d.da (showKV d.a)} b={f d.db (showKV d.b)} c={f d.dc (showKV d.c)} h={f d.dh (toString d.hn)}"
 
-def step (p : Pattern) (w : World) : Op → World × String
-  | .bad => (w, "err:badop")
+def Out.str : Out → String
+  | .ok => "ok"
+  | .err e => e.str
+  | .dump h d => s!"h={h} {showDb d}"
+  | .badop => "err:badop"
+
+abbrev TxFn := Nat → Bool → List Msg → TxSt → TxSt × Option Err
+
+/-- One op on one instance; `txf` is the transaction function (`applyTx` for the code
+as it is). -/
+def stepG (txf : TxFn) (p : Pattern) (w : World) : Op → World × Out
+  | .bad => (w, .badop)
   | .openCfgs _ =>
-    if w.opened || !w.boundary || w.height != 1 then (w, "err:badop")
-    else ({ w with opened := true }, "ok")
+    if w.opened || !w.boundary || w.height != 1 then (w, .badop)
+    else ({ w with opened := true }, .ok)
   | .restart =>
-    if !w.boundary then (w, "err:badop")
-    else ({ w with opened := true, st := if p.follow then restart w.st else w.st }, "ok")
+    if !w.boundary then (w, .badop)
+    else ({ w with opened := true, st := if p.follow then restart w.st else w.st }, .ok)
   | .tx who lo msgs =>
-    let (t, e) := applyTx who lo msgs w.st
-    ({ w with st := t, boundary := false, opened := true },
-      match e with | none => "ok" | some e => e.str)
+    let r := txf who lo msgs w.st
+    ({ w with st := r.1, boundary := false, opened := true },
+      match r.2 with | none => .ok | some e => .err e)
   | .commit =>
     ({ w with st := if p.after w.height then restart w.st else w.st,
               height := w.height + 1, boundary := true, opened := true },
-      s!"h={w.height} {dump w.st.db}")
+      .dump w.height w.st.db)
 
-def run (p : Pattern) : World → List Op → List String
+def runG (txf : TxFn) (p : Pattern) : World → List Op → List Out
   | _, [] => []
-  | w, o :: os => let (w', out) := step p w o; out :: run p w' os
+  | w, o :: os => (stepG txf p w o).2 :: runG txf p (stepG txf p w o).1 os
+
+/-- The world after the ops. -/
+def execG (txf : TxFn) (p : Pattern) : World → List Op → World
+  | w, [] => w
+  | w, o :: os => execG txf p (stepG txf p w o).1 os
+
+def step : Pattern → World → Op → World × Out := stepG applyTx
+
+def exec : Pattern → World → List Op → World := execG applyTx
+
+def run : Pattern → World → List Op → List Out := runG applyTx
 
 /-! ### The cache-free specification (database only) -/
 
@@ -265,7 +298,7 @@ def specMsg (d : Db) : Msg → Except Err Db
   | .send foreign => if foreign then .error .insufficientCoins else .ok d
   | .add s =>
     if d.dep s then .error .pkgExist
-    else if s == .h && !(d.da && d.db) then .error .typeCheck
+    else if s.isHub && !(d.da && d.db) then .error .typeCheck
     else .ok (d.setDep s)
   | .call s f k v dep =>
     if !d.dep s then .error .internal
@@ -294,6 +327,35 @@ def specTx (who : Nat) (lo : Bool) (msgs : List Msg) (d : Db) : Db × Option Err
   else match specMsgs d msgs with
     | .ok d' => (d', none)
     | .error e => (d, some e)
+
+/-- The cache-free machine: no node cache, no restarts. -/
+structure SWorld where
+  db : Db := {}
+  height : Nat := 1
+  boundary : Bool := true
+  opened : Bool := false
+  deriving DecidableEq, Repr
+
+def specStep (w : SWorld) : Op → SWorld × Out
+  | .bad => (w, .badop)
+  | .openCfgs _ =>
+    if w.opened || !w.boundary || w.height != 1 then (w, .badop)
+    else ({ w with opened := true }, .ok)
+  | .restart =>
+    if !w.boundary then (w, .badop) else ({ w with opened := true }, .ok)
+  | .tx who lo msgs =>
+    let r := specTx who lo msgs w.db
+    ({ w with db := r.1, boundary := false, opened := true },
+      match r.2 with | none => .ok | some e => .err e)
+  | .commit =>
+    ({ w with height := w.height + 1, boundary := true, opened := true }, .dump w.height w.db)
+
+def specRun : SWorld → List Op → List Out
+  | _, [] => []
+  | w, o :: os => (specStep w o).2 :: specRun (specStep w o).1 os
+
+def World.abs (w : World) : SWorld :=
+  { db := w.st.db, height := w.height, boundary := w.boundary, opened := w.opened }
 
 /-- Database and node cache agree; `h` deployed implies `a`, `b` deployed. -/
 def Coherent (t : TxSt) : Prop :=
@@ -366,6 +428,12 @@ def settleUnsorted (price depositAmt : Int) (enum : List (RealmAcct × Int)) : S
 (keeper.go:1805): accumulation into a map, as a fold over the enumeration. -/
 def mergeDiffs (base : List Nat → Int) (enum : List (List Nat × Int)) : List Nat → Int :=
   enum.foldl (fun m e => fun p => if p == e.1 then m p + e.2 else m p) base
+
+/-- `cacheStore.writeLocked` (tm2/pkg/store/cache/store.go:258): the dirty keys are
+collected from a map, sorted, and applied to the parent in key order (`none` = delete). -/
+def flush {σ : Type} (apply : σ → List Nat × Option (List Nat) → σ) (parent : σ)
+    (dirty : List (List Nat × Option (List Nat))) : σ :=
+  (dirty.mergeSort fun x y => pathLe x.1 y.1).foldl apply parent
 
 /-! ## Part 3 — what the results hash covers (types/results.go) -/
 
